@@ -46,11 +46,16 @@ pub fn lonlat_to_cell(lonlat: LonLat, resolution: i32) -> Result<u64, String> {
     }
 
     // Deduplicate estimates
+    #[cfg(not(feature = "verif"))]
     let mut estimate_set = HashSet::new();
+    #[cfg(feature = "verif")]
+    let mut estimate_set: HashSet<u64, crate::verif::SimHashState> = HashSet::default();
     let mut unique_estimates = Vec::new();
     let mut cells = Vec::new();
 
     for sample in samples {
+        #[cfg(feature = "verif")]
+        crate::verif::yield_point(crate::verif::site::L2C_SAMPLE);
         let estimate = lonlat_to_estimate(sample, resolution)?;
         let estimate_key = serialize(&estimate)?;
         if !estimate_set.contains(&estimate_key) {
@@ -81,6 +86,8 @@ fn lonlat_to_estimate(lonlat: LonLat, resolution: i32) -> Result<A5Cell, String>
 
     let dodecahedron = DodecahedronProjection::get_thread_local();
     let mut dodec_point = dodecahedron.forward(spherical, origin.id)?;
+    #[cfg(feature = "verif")]
+    crate::verif::yield_point(crate::verif::site::L2C_ESTIMATE);
     let polar = to_polar(dodec_point);
     let quintant = get_quintant_polar(polar);
     let (segment, orientation) = quintant_to_segment(quintant, origin);
@@ -156,6 +163,8 @@ pub fn cell_to_lonlat(cell: u64) -> Result<LonLat, String> {
     let cell_data = deserialize(cell)?;
     let pentagon = get_pentagon(&cell_data)?;
     let dodecahedron = DodecahedronProjection::get_thread_local();
+    #[cfg(feature = "verif")]
+    crate::verif::yield_point(crate::verif::site::C2L_MID);
     let point = dodecahedron.inverse(pentagon.get_center(), cell_data.origin_id)?;
     Ok(to_lon_lat(point))
 }
@@ -205,6 +214,8 @@ pub fn cell_to_boundary(
     let dodecahedron = DodecahedronProjection::get_thread_local();
     let mut unprojected_vertices = Vec::new();
     for vertex in vertices {
+        #[cfg(feature = "verif")]
+        crate::verif::yield_point(crate::verif::site::C2B_VERTEX);
         let unprojected = dodecahedron.inverse(*vertex, cell_data.origin_id)?;
         unprojected_vertices.push(unprojected);
     }
@@ -236,6 +247,8 @@ pub fn a5cell_contains_point(cell: &A5Cell, point: LonLat) -> Result<f64, String
     let dodecahedron = DodecahedronProjection::get_thread_local();
     let projected_point = dodecahedron.forward(spherical, cell.origin_id)?;
 
+    #[cfg(feature = "verif")]
+    crate::verif::yield_point(crate::verif::site::CONTAINS_MID);
     let (quintant, _orientation) = segment_to_quintant(cell.segment, cell.origin());
 
     let containment_result = if cell.resolution == FIRST_HILBERT_RESOLUTION - 1 {
